@@ -356,3 +356,50 @@ Theorem handshake_deadline_ends_attempt :
   forall d waited, d <= waited -> hstep (Some d) waited HGiveUp = Some 0.
 Proof. intros d waited H. unfold hstep. apply Nat.leb_le in H. rewrite H. reflexivity. Qed.
 
+(** ---- Design refutation (C12): reconnect() checks the status before taking the lock ----
+
+    reconnect(): c.mu.Lock(); if c.status == Connecting { unlock; return };
+    c.status = Connecting; close; unlock; loop { dial }.  Check and update are one
+    critical section, so of any number of overlapping calls exactly one dials.
+    With "if c.Status() == Connecting { return }; c.mu.Lock(); c.status = Connecting"
+    the check is a critical section of its own: calls that overlap all pass it. *)
+Record kstate := mkKS { kconnecting : bool; dials : nat; passed : list nat }.
+
+Inductive klabel :=
+| KCheck (i : nat)      (* split design: call i reads the status *)
+| KSet (i : nat)        (* split design: call i locks, sets Connecting, dials *)
+| KAtomic (i : nat).    (* real code: check and set under one lock *)
+
+Definition kstep (s : kstate) (l : klabel) : kstate :=
+  match l with
+  | KCheck i => if kconnecting s then s else mkKS false (dials s) (i :: passed s)
+  | KSet i => if existsb (Nat.eqb i) (passed s) then mkKS true (S (dials s)) (passed s) else s
+  | KAtomic i => if kconnecting s then s else mkKS true (S (dials s)) (passed s)
+  end.
+
+Definition kinit : kstate := mkKS false 0 [].
+
+Theorem reconnect_split_check_refuted :
+  dials (fold_left kstep [KCheck 0; KCheck 1; KSet 0; KSet 1] kinit) = 2.
+Proof. reflexivity. Qed.
+
+(** with the atomic check-and-set any number of overlapping calls dial at most once
+    (until the connection is established again) *)
+Theorem reconnect_atomic_dials_once :
+  forall ls, (forall l, In l ls -> exists i, l = KAtomic i) -> dials (fold_left kstep ls kinit) <= 1.
+Proof.
+  assert (H : forall ls s, (forall l, In l ls -> exists i, l = KAtomic i) ->
+            (kconnecting s = true -> dials (fold_left kstep ls s) = dials s) /\
+            (kconnecting s = false -> dials (fold_left kstep ls s) <= S (dials s))).
+  { induction ls as [|l t IH]; intros s Hall; cbn [fold_left].
+    - split; intros; [reflexivity|apply le_S, le_n].
+    - destruct (Hall l (or_introl eq_refl)) as [i ->].
+      assert (Ht : forall l, In l t -> exists i, l = KAtomic i) by (intros l Hl; apply Hall; right; exact Hl).
+      assert (Hs : kstep s (KAtomic i) = if kconnecting s then s else mkKS true (S (dials s)) (passed s)) by reflexivity.
+      rewrite Hs. destruct (kconnecting s) eqn:E; split; intros Hc; try discriminate.
+      + exact (proj1 (IH s Ht) E).
+      + pose proof (proj1 (IH (mkKS true (S (dials s)) (passed s)) Ht) eq_refl) as H1.
+        rewrite H1. cbn [dials]. apply le_n. }
+  intros ls Hall. exact (proj2 (H ls kinit Hall) eq_refl).
+Qed.
+
